@@ -20,8 +20,9 @@ From PD Require Import Base.Field Base.Matrix Model.Gauss Model.Sample Run.Sampl
 Import ListNotations.
 Local Open Scope Z_scope.
 """
-# tolerances: >= 100x the worst discrepancy observed on the unchanged tree (seeds 1-6, both tiers:
-# zero 6e-11, model 5e-10, affinity 1e-10, gram 6e-8); a wrong offset / factor / key gives O(1)
+# tolerances: >= 100x the worst discrepancy observed on the unchanged tree among the cases that pass the
+# conditioning gauge (quick seeds 1-3, thorough seed 3: zero 6e-11, model 4e-10, affinity 3e-11, gram 4e-9);
+# a wrong offset / factor / ordering gives O(1)
 ZTOL = 1e-8          # sample(0) vs smoothing means (relative to |mean| + std)
 RTOL = 1e-7          # implementation vs model (relative to |value| + std)
 GTOL = 1e-5          # Gram matrix vs joint covariance (relative to sd_i sd_j)
